@@ -198,4 +198,30 @@ theorem native_int_mul_exact (n : Nat) (a b : Int) :
     · have : Int.tdiv a b * b ≠ a := (tdiv_mul_ne_iff a b hpos).mpr hd
       simp [this, hd, mulResOfCode]
 
+/-- unsigned kinds, positive integral factor: exact divisibility (a negative factor is converted with `uint64()` and wraps:
+    the listed deviation) -/
+theorem native_uint_mul_exact (n : Nat) (a : Nat) (b : Int) (hb : 0 < b) :
+    nativeMulInt (.uint n) ((a : Int) : Rat) (b : Rat) = some (specMul ((a : Int) : Rat) (b : Rat)) := by
+  have hbr : ¬ ((b : Rat) ≤ 0) := by
+    intro h
+    have : ((b : Rat) ≤ ((0 : Int) : Rat)) ↔ b ≤ 0 := Rat.intCast_le_intCast
+    have := this.mp (by simpa using h)
+    omega
+  have hgo : goUint64 (b : Rat) = b.toNat := by
+    simp only [goUint64, truncToInt_intCast]
+    have : ¬ b < 0 := by omega
+    simp [this]
+  simp only [nativeMulInt, truncToInt_intCast, Int.toNat_natCast, hgo, MultipleOfUint, specMul, hbr, ↓reduceIte,
+    div_isInt_iff_dvd (a : Int) b hb]
+  have hm0 : b.toNat ≠ 0 := by omega
+  have hbn : (b.toNat : Int) = b := Int.toNat_of_nonneg (by omega)
+  have hdvd : (b ∣ (a : Int)) ↔ (b.toNat ∣ a) := by
+    rw [← hbn]; exact Int.natCast_dvd_natCast
+  by_cases hd : b.toNat ∣ a
+  · have : ¬ (a / b.toNat * b.toNat ≠ a) := fun h => h (Nat.div_mul_cancel hd)
+    simp [hm0, this, hdvd.mpr hd, mulResOfCode]
+  · have : a / b.toNat * b.toNat ≠ a := fun e => hd ⟨a / b.toNat, by rw [Nat.mul_comm]; exact e.symm⟩
+    have hnd : ¬ (b ∣ (a : Int)) := fun h => hd (hdvd.mp h)
+    simp [hm0, this, hnd, mulResOfCode]
+
 end VM.Values
